@@ -201,4 +201,61 @@ theorem writer_steps_keep_calls (p : Pool) (sid : Nat) (b : Bool) :
     split; · rfl
     split <;> rfl
 
+
+/-! ## isolation
+
+`C19_isolation_full` is the trace-level non-interference statement. It is NOT proved; what is proved
+are its four frame conditions (`isolation_*`). Missing: the unwinding argument that lifts them to
+traces (simulation relation "the pools agree on every object and index entry of peers ≠ peer(b)"). -/
+
+/-- schedules that differ only in the steps of `b`'s writer goroutine and remote (how fast `MsgSend`
+returns, whether and when it fails, whether the peer context is cancelled) -/
+def sameUpToWriterOf (b : Nat) (σ σ' : List Step) : Prop :=
+  σ.filter (fun st => !st.isWriterOf b) = σ'.filter (fun st => !st.isWriterOf b)
+
+/-- no stream is opened by the handler (stream ids are allocated globally, so a stream opened for
+`b`'s peer in only one of two runs would shift all later ids) -/
+def noHandlerOpen (σ : List Step) : Prop := ∀ st ∈ σ, ∀ peer sp, st ≠ .setPlan peer (some sp)
+
+/-- full statement (unproved): replacing the behaviour of `b`'s writer leaves the whole history of every
+stream `a` of another peer unchanged -/
+def C19_isolation_full : Prop :=
+  ∀ (w q a b : Nat) (σ σ' : List Step), sameUpToWriterOf b σ σ' → noHandlerOpen σ →
+    peerOf (run (init w q) σ).objs a ≠ peerOf (run (init w q) σ).objs b →
+    getObj (run (init w q) σ).objs a = getObj (run (init w q) σ').objs a
+
+/-- frame 1: a writer / remote / close / removal step of stream `b` changes no other stream object -/
+theorem isolation_foreign_step_frame (p : Pool) (st : Step) (a b : Nat) (hs : st.subject = some b)
+    (hab : a ≠ b) : getObj (step p st).1.objs a = getObj p.objs a :=
+  foreign_step_frame p st a b hs hab
+
+/-- frame 2: a write addressed to `b` changes only `b`, and its outcome (accepted / dropped) is a function
+of `b`'s own object — no other stream's queue or writer is consulted -/
+theorem isolation_write_local (p : Pool) (a b m : Nat) (hab : a ≠ b) :
+    getObj (p.writeTo b m).1.objs a = getObj p.objs a ∧
+    getObj (p.writeTo b m).1.objs b = (getObj p.objs b).map (fun s => (s.tryAdd m).1) ∧
+    (p.writeTo b m).2 = (match getObj p.objs b with
+      | some s => (s.tryAdd m).2
+      | none => false) :=
+  ⟨writeTo_frame p a b m hab, (writeTo_local p b m).1, (writeTo_local p b m).2⟩
+
+/-- frame 3: the writer of a stream (however slow, blocked for ever or failing) never touches an index, a
+pending call or the dial pool -/
+theorem isolation_writer_keeps_pool (p : Pool) (st : Step) (b : Nat) (hw : st.isWriterOf b = true) :
+    (step p st).1.streams = p.streams ∧ (step p st).1.byPeer = p.byPeer ∧
+    (step p st).1.byTag = p.byTag ∧ (step p st).1.calls = p.calls ∧
+    (step p st).1.dialBuf = p.dialBuf ∧ (step p st).1.running = p.running ∧
+    (step p st).1.lastId = p.lastId :=
+  writer_step_keeps_pool p st b hw
+
+/-- frame 4: "write to the next stream when this one is full" only happens inside one peer: every group
+snapshotted by `SendById` (in every reachable pool) consists of streams of a single peer -/
+theorem isolation_fallback_within_peer (w q : Nat) (steps : List Step) (peers : List Nat) :
+    ∀ g ∈ (run (init w q) steps).sendByIdGroups peers,
+      ∃ k, ∀ id ∈ g, peerOf (run (init w q) steps).objs id = some k :=
+  groups_single_peer _ ((IdxInv.init w q).run steps) peers
+
+example : (run (init 1 1) [.add 0 1 true 0 [0], .add 1 1 false 0 [0], .add 0 2 true 0 []]).sendByIdGroups [0, 1]
+    = [[1, 3], [2]] := by decide
+
 end AnySync.StreamPool
